@@ -74,7 +74,7 @@ def build(ctx):
                 for k, chunk in enumerate(groups):
                     nm = chunk[0][0] if dynamic else str(k)
                     hs.append(P.Harness("%s_%s_%s_%s_%s_cxx%s" % (sch.ns, msg.name, lv.name, nm, mode, std), harness(u, g, chunk, N, 0, D), [u], unwind=G + 2,
-                                        cap=ctx.q(300, 900), backends=["minisat", "kissat"], extra_flags=["--no-standard-checks"],
+                                        cap=ctx.q(600, 1200), backends=["minisat", "kissat"], extra_flags=["--no-standard-checks"],
                                         meta={"big_loops": ["ref_walk_%s.%d" % (msg.name, x) for x in range(16)]},
                                         desc="message %s.%s level %s: setter(s) %s write exactly the reference bytes at the reference position; all other bytes unchanged" % (sch.ns, msg.name, lv.name, [a[0] for a in chunk]),
                                         bounds={"N": N, "G": G, "D": D, "std": "c++" + std, "build": mode, "byte_order": "BE" if sch.be else "LE"}))
@@ -89,7 +89,7 @@ def build(ctx):
                 for k, chunk in enumerate(groups):
                     nm = chunk[0][0] if dynamic else str(k)
                     hs.append(P.Harness("%s_%s_%s_cursor_%s_%s_cxx%s" % (sch.ns, msg.name, lv.name, nm, mode, std), c04.harness_nw(uc, g, chunk, N, 0, D), [uc], unwind=G + 2,
-                                        cap=ctx.q(300, 900), backends=["minisat", "kissat"], extra_flags=["--no-standard-checks"],
+                                        cap=ctx.q(600, 1200), backends=["minisat", "kissat"], extra_flags=["--no-standard-checks"],
                                         meta={"big_loops": ["ref_walk_%s.%d" % (msg.name, x) for x in range(16)]},
                                         desc="message %s.%s level %s: cursor-based setter(s) %s (plain, init, dont_move, init_dont_move) write exactly the reference bytes where the random-access setter writes them; all other bytes unchanged; documented cursor position" % (sch.ns, msg.name, lv.name, [a[0] for a in chunk]),
                                         bounds={"N": N, "G": G, "D": D, "std": "c++" + std, "build": mode, "byte_order": "BE" if sch.be else "LE"}))
@@ -103,7 +103,7 @@ def build(ctx):
             N = g.max_size(0, 1) + 1
             for a in c17.arms(g, sch):
                 hs.append(P.Harness("%s_%s_hdrfill_%s_cxx17" % (sch.ns, msg.name, a[0]), c17.harness(uh, g, [a], N, 0, 1), [uh], unwind=G + 2,
-                                    cap=ctx.q(300, 900), backends=["minisat", "kissat"], extra_flags=["--no-standard-checks"],
+                                    cap=ctx.q(600, 1200), backends=["minisat", "kissat"], extra_flags=["--no-standard-checks"],
                                     meta={"big_loops": ["ref_walk_%s.%d" % (msg.name, x) for x in range(16)]},
                                     desc="%s.%s: %s writes exactly the schema's identifying values (numGroups / numVarDataFields = member counts of that level) and nothing else" % (sch.ns, msg.name, a[0]),
                                     bounds={"N": N, "G": G, "D": 1, "std": "c++17"}))
@@ -126,7 +126,7 @@ def build(ctx):
             body += "  CALL(encode_%s(buf, N, (unsigned char *)vals, (unsigned char *)cnts, (unsigned char *)lens));\n" % g.M
             body += '  VASSERT(!verif_aborted, "an in-order encode that fits the buffer must not invoke the handler");\n'
             body += '  for (unsigned i = 0; i < N; i++) VASSERT(buf[i] == exp[i], "after an in-order scripted encode the buffer is exactly the reference SBE image; bytes of no written member keep their previous value");\n'
-            hs.append(P.Harness("%s_%s_encode_script_%s_cxx%s" % (sch.ns, msg.name, mode, std), hgen.harness([u], body), [u], unwind=5, cap=ctx.q(300, 900), backends=["minisat", "kissat"],
+            hs.append(P.Harness("%s_%s_encode_script_%s_cxx%s" % (sch.ns, msg.name, mode, std), hgen.harness([u], body), [u], unwind=5, cap=ctx.q(600, 1200), backends=["minisat", "kissat"],
                                 extra_flags=["--no-standard-checks"],
                                 desc="message %s.%s: scripted in-order encode (fill_message_header, all setters, fill_group_header + entries, data resize + bytes) == reference image" % (sch.ns, msg.name),
                                 bounds={"N": N, "counts": "<= 2", "data_len": "<= %d" % Dd, "std": "c++" + std, "build": mode}))
@@ -141,7 +141,7 @@ def build(ctx):
             ud = ctx.lower("c13", c13.cpp([inst]), std=std, mode="checked")
             text = c13.harness(ud, inst, 4, True)
             for k in wops:
-                hs.append(P.Harness("dataop_%s_op%02d_%s_cxx%s" % (inst[0], k, c13.OPS[k], std), text, [ud], unwind=7, cap=ctx.q(300, 900), defines=["VERIF_WHICH=%d" % k],
+                hs.append(P.Harness("dataop_%s_op%02d_%s_cxx%s" % (inst[0], k, c13.OPS[k], std), text, [ud], unwind=7, cap=ctx.q(600, 1200), defines=["VERIF_WHICH=%d" % k],
                                     desc="<data> %s (%s length, %s): %s writes exactly the length prefix and payload of the vector model, nothing else" % (inst[1], inst[2], "BE" if inst[5] else "LE", c13.OPS[k]),
                                     bounds={"CAP": 4, "source_len": "0..3", "std": "c++" + std, "operation": c13.OPS[k]}))
     # extreme data length: the member after a <data> whose length is at the top of its (uint8) length type
@@ -155,7 +155,7 @@ def build(ctx):
         lv = g.levels[0]
         for a in [x for x in arms_for(g, lv) if x[0] in ("dresize_db", "dset_db")] :
             hs.append(P.Harness("%s_odd_bigdata_%s_%s_cxx%s" % (sch.ns, a[0], mode, std), harness(u, g, [a], N, 0, 255), [u], unwind=4,
-                                cap=ctx.q(300, 900), backends=["minisat", "kissat"], extra_flags=["--no-standard-checks"],
+                                cap=ctx.q(600, 1200), backends=["minisat", "kissat"], extra_flags=["--no-standard-checks"],
                                 meta={"big_loops": ["ref_walk_odd.%d" % x for x in range(16)]},
                                 desc="message %s.odd: %s on the data member that follows a <data> of ANY uint8 length 0..255 (incl. the type maximum)" % (sch.ns, a[0]),
                                 bounds={"N": N, "G": 1, "D": "0..255 (first data), rest limited by N", "std": "c++" + std, "build": mode}))
